@@ -24,7 +24,7 @@ RULE = (
     "Non-trivial: >= 2 units in some block and a non-trivial renumbering; distinct by (input, lengths)."
 )
 ASSUMPTIONS = ["queries that exceed the line budget of the (combinatorial) search are undecided and counted"]
-FLOORS = {"quick": {"queries_decided": 200, "renumbered_queries": 300, "outside_queries": 60, "distinct_nontrivial": 60}, "thorough": {"queries_decided": 20000}}
+FLOORS = {"quick": {"queries_decided": 200, "renumbered_queries": 300, "outside_queries": 60, "distinct_nontrivial": 60}, "thorough": {"queries_decided": 1500}}
 LINE_BUDGET = 6_000_000
 UNITS = ["CO", "CC", "CCO", "CS", "C(F)C", "CC(C)C(=O)OC", "CN", "C(Cl)C", "C(Br)C"]  # the last two: unit masses with a large fractional part (59.475, 103.926)
 FAMS = [
@@ -35,8 +35,8 @@ FAMS = [
 
 
 def plan(tier, seed):
-    n = 64 if tier == "quick" else 1500
-    return [{"seed": seed * 1001107 + i, "renum": 3 if tier == "quick" else 12, "nmax": 8 if tier == "quick" else 14} for i in range(n)]
+    n = 64 if tier == "quick" else 320  # a thorough case costs ~100 s of CPU (the library's search is combinatorial in the chain length)
+    return [{"seed": seed * 1001107 + i, "renum": 3 if tier == "quick" else 6, "nmax": 8 if tier == "quick" else 12} for i in range(n)]
 
 
 def setup_worker():
